@@ -177,8 +177,10 @@ Proof. exact fifo_expire_keeps_order. Qed.
 Theorem c13_fifo_unregister_keeps_order : forall r db c rk,
   reg_get (unregister r db c) rk = if fst rk =? db then filter (not_conn c) (reg_get r rk) else reg_get r rk.
 Proof. exact fifo_unregister_keeps_order. Qed.
-Theorem c13_fifo_wake_queue : forall now s b, b_crashed b = false ->
-  b_wake (snd (process_wakeups now s b)) = skipn 32 (b_wake b) \/ b_crashed (snd (process_wakeups now s b)) = true.
+(** the wake queue is served from the front, 32 at a time; a wake-up that puts its element back
+    for a client that has gone re-notifies the key, and that request joins the back *)
+Theorem c13_fifo_wake_queue : forall now s b,
+  exists ex, b_wake (snd (process_wakeups now s b)) = skipn 32 (b_wake b) ++ ex.
 Proof. exact fifo_wake_queue. Qed.
 
 (** ---- conservation: pushed = returned + remaining, as a multiset equation per list ----
@@ -213,22 +215,18 @@ Theorem c13_history_reachable : forall evs st P R, reach_g st P R -> all_ok_cons
 Proof. exact gtrace_reach. Qed.
 
 (** ---- no stranding: the safety half of "served promptly" ----
-    In every state reachable by list-catalogue requests (as for conservation; blocking pops on
-    any number of keys) in which no client goes away WHILE IT IS BLOCKED, a key that has a waiter
-    holds at most as many elements as wake-ups are under way for it.  Without that hypothesis the
-    statement is refuted (class orphan-wakeup-no-renotify, [c13_orphan_wakeup_strands]). *)
-Theorem c13_no_stranding : forall st, reach_sk st -> no_strand st.
+    In every state reachable by list-catalogue requests (exactly the histories of the
+    conservation theorem: blocking pops on any number of keys, clients going away at any time -
+    blocked, with their wake-up under way, or neither), a key that has a waiter holds at most as
+    many elements as wake-ups are under way for it.  (Since 0715a3b no hypothesis about
+    disconnects is needed: a wake-up that finds its client gone puts the element back AND
+    notifies the next waiter of the key.) *)
+Theorem c13_no_stranding : forall st P R, reach_g st P R -> no_strand st.
 Proof. exact no_stranding. Qed.
 (** in particular, once the wake-up queue has drained nobody is blocked on a key that holds an element *)
-Theorem c13_no_stranding_drained : forall st, reach_sk st -> b_wake (snd st) = [] ->
+Theorem c13_no_stranding_drained : forall st P R, reach_g st P R -> b_wake (snd st) = [] ->
   forall db k, 0 <= db -> reg_get (b_reg (snd st)) (db, k) <> [] -> list_at (fst st) db k = [].
 Proof. exact no_stranding_drained. Qed.
-(** in these histories every wake-up under way belongs to a connection that is still Blocked *)
-Theorem c13_no_orphan_wakeups : forall st, reach_sk st ->
-  forall u, In u (b_wake (snd st)) -> zlookup (u_conn u) (b_blk (snd st)) <> None.
-Proof. exact no_orphan_wakeups. Qed.
-Theorem c13_no_stranding_history_reachable : forall evs st, reach_sk st -> all_ok_sk st evs = true -> reach_sk (run st evs).
-Proof. exact run_reach_sk. Qed.
 
 (** ---- non-vacuity: a history inside every hypothesis ---- *)
 Example c13_good_history :
@@ -258,7 +256,7 @@ Proof. vm_compute. repeat split; reflexivity. Qed.
 (** no stranding: between the push and the wake-up phase the key holds three elements with two
     wake-ups under way and nobody left waiting; after it, one element *)
 Example c13_no_stranding_history :
-  all_ok_sk sys0 w_sk = true /\
+  all_ok_cons sys0 w_sk = true /\
   let st := run sys0 w_sk in
   list_at (fst st) 0 (bs "q") = [bs "a"; bs "b"; bs "c"] /\ wcount 0 (bs "q") (b_wake (snd st)) = 2 /\ waiting st 0 (bs "q") = [] /\
   let st' := step st (EWakeups 0) in
@@ -266,7 +264,7 @@ Example c13_no_stranding_history :
   out_to st' 2 = [FArray [FBulk (bs "q"); FBulk (bs "c")]].
 Proof. vm_compute. repeat split; reflexivity. Qed.
 
-(** ---- the classes that were repaired: what the witnesses do now ---- *)
+(** ---- the classes that were repaired (all eight): what the witnesses do now ---- *)
 (** blocked-disconnect (fixed c7e6509; was: the element was written to the connection of the
     client that had gone): the connection is unregistered, the element stays in the list *)
 Example c13_blocked_disconnect_fixed :
@@ -315,7 +313,7 @@ Proof. vm_compute. repeat split; reflexivity. Qed.
 (** reregister-no-recheck (fixed 8ab686d; was: Blocked beside an element on r with no wake-up
     under way): the wake-up that finds q empty serves the client from r *)
 Example c13_reregister_no_recheck_fixed :
-  all_ok_sk sys0 w_recheck = true /\
+  all_ok_cons sys0 w_recheck = true /\
   let st := run sys0 w_recheck in
   out_to st 1 = [FArray [FBulk (bs "r"); FBulk (bs "b")]] /\ list_at (fst st) 0 (bs "r") = [] /\
   waiting st 0 (bs "r") = [] /\ waiting st 0 (bs "q") = [] /\ b_wake (snd st) = [] /\ b_blk (snd st) = [].
@@ -329,14 +327,14 @@ Example c13_script_push_fixed :
   list_at (fst st) 0 (bs "q") = [] /\ waiting st 0 (bs "q") = [].
 Proof. vm_compute. repeat split; reflexivity. Qed.
 
-(** ---- known class: what fails outside the hypothesis of the no-stranding theorem ---- *)
-(** orphan-wakeup-no-renotify (open): connection 1 goes away with its wake-up under way; the
-    wake-up puts the element back (nothing is lost: the history satisfies the hypotheses of the
-    conservation theorem) and notifies nobody: connection 2 stays Blocked on q, q holds an
-    element, no wake-up is under way *)
-Example c13_orphan_wakeup_strands :
-  all_ok_cons sys0 w_orphan = true /\ all_ok_sk sys0 w_orphan = false /\
+(** orphan-wakeup-no-renotify (fixed 0715a3b; was: connection 2 stayed Blocked beside the element
+    with no wake-up under way): connection 1 goes away with its wake-up under way; the wake-up puts
+    the element back and notifies connection 2, which the next wake-up phase serves *)
+Example c13_orphan_wakeup_fixed :
+  all_ok_cons sys0 w_orphan = true /\
   let st := run sys0 w_orphan in
-  list_at (fst st) 0 (bs "q") = [bs "v"] /\ waiting st 0 (bs "q") = [2] /\ b_wake (snd st) = [] /\
-  out_to st 2 = [] /\ out_to st 3 = [FInt 1].
+  list_at (fst st) 0 (bs "q") = [bs "v"] /\ map u_conn (b_wake (snd st)) = [2] /\ wcount 0 (bs "q") (b_wake (snd st)) = 1 /\
+  let st' := step st (EWakeups 0) in
+  out_to st' 2 = [FArray [FBulk (bs "q"); FBulk (bs "v")]] /\ out_to st' 3 = [FInt 1] /\
+  list_at (fst st') 0 (bs "q") = [] /\ b_blk (snd st') = [] /\ b_wake (snd st') = [].
 Proof. vm_compute. repeat split; reflexivity. Qed.
